@@ -23,6 +23,7 @@
 #include <string>
 #include <type_traits>
 #include <utility>
+#include <vector>
 
 namespace c13 {
 
@@ -59,28 +60,58 @@ struct Cell {
     bool ok;
 };
 
+// evaluates F on Tab[lo, hi); one probe of this covers a whole chunk (one template instantiation instead of hi-lo)
 template <typename F, auto const& Tab>
+constexpr int eval_range(std::size_t lo, std::size_t hi)
+{
+    for (std::size_t i = lo; i < hi; ++i) { static_cast<void>(F{}(Tab[i])); }
+    return 0;
+}
+template <typename F, auto const& Tab, std::size_t Lo, std::size_t Hi>
+concept chunk_evaluable = requires { typename probe_tag<eval_range<F, Tab>(Lo, Hi)>; };
+
+template <typename F, auto const& Tab, std::size_t CH = 64>
 struct Twin {
     using Arg                        = std::remove_cvref_t<decltype(Tab[0])>;
     using R                          = std::remove_cvref_t<decltype(F{}(Tab[0]))>;
     static constexpr std::size_t N   = Tab.size();
+    static constexpr std::size_t NCH = (N + CH - 1) / CH;
+    using Table                      = std::array<Cell<R>, N>;
 
     template <std::size_t I>
-    static constexpr Cell<R> cell()
+    static constexpr void cell(Table& out)
     {
         if constexpr (const_evaluable<F, Tab, I>) {
-            return Cell<R>{F{}(Tab[I]), true};
+            out[I] = Cell<R>{F{}(Tab[I]), true};
         } else {
-            return Cell<R>{R{}, false};
+            out[I] = Cell<R>{R{}, false};
         }
     }
-    template <std::size_t... I>
-    static constexpr std::array<Cell<R>, N> make(std::index_sequence<I...>)
+    template <std::size_t Lo, std::size_t... K>
+    static constexpr void cells(Table& out, std::index_sequence<K...>)
     {
-        return {{cell<I>()...}};
+        (cell<Lo + K>(out), ...);
     }
-    // evaluated by the compiler: initialiser of a constexpr variable is manifestly constant-evaluated
-    static constexpr std::array<Cell<R>, N> ct = make(std::make_index_sequence<N>{});
+    template <std::size_t C>
+    static constexpr void chunk(Table& out)
+    {
+        constexpr std::size_t lo = C * CH;
+        constexpr std::size_t hi = lo + CH < N ? lo + CH : N;
+        if constexpr (chunk_evaluable<F, Tab, lo, hi>) {
+            for (std::size_t i = lo; i < hi; ++i) { out[i] = Cell<R>{F{}(Tab[i]), true}; }
+        } else {
+            cells<lo>(out, std::make_index_sequence<hi - lo>{}); // isolate the failing cells
+        }
+    }
+    template <std::size_t... C>
+    static constexpr Table make(std::index_sequence<C...>)
+    {
+        Table out{};
+        (chunk<C>(out), ...);
+        return out;
+    }
+    // evaluated by the compiler: the initialiser of a constexpr variable is manifestly constant-evaluated
+    static constexpr Table ct = make(std::make_index_sequence<NCH>{});
 };
 
 // ------------------------------------------------------------------ floating-point helpers (harness side)
@@ -346,13 +377,14 @@ struct TwinStats {
     std::size_t compared = 0, skipped = 0, not_ce = 0, differ = 0;
 };
 
-template <typename F, auto const& Tab, typename Cls>
-inline TwinStats run_twin(char const* subject)
+template <typename F, auto const& Tab, typename Cls, std::size_t CH = 64>
+inline TwinStats run_twin(char const* subject, std::size_t lo = 0, std::size_t hi = ~std::size_t{0})
 {
-    using TW = Twin<F, Tab>;
+    using TW = Twin<F, Tab, CH>;
     using R  = typename TW::R;
     TwinStats st;
-    for (std::size_t i = 0; i < TW::N; ++i) {
+    if (hi > TW::N) { hi = TW::N; }
+    for (std::size_t i = lo; i < hi; ++i) {
         auto const& arg = Tab[i];
         if (!in_domain<F>(arg)) {
             ++st.skipped;
@@ -395,10 +427,35 @@ inline TwinStats run_twin(char const* subject)
     return st;
 }
 
-// a unit is a list of (subject, runner) entries; one enumerated case per entry
+// A unit is a list of entries (one function<type> each).  One enumerated case = one slice of kCaseCells table rows of
+// one entry, so a crash inside a table loses at most that slice (the runner forks per case: Spec.batch = 1).
 struct Entry {
-    char const* subject;
-    TwinStats (*run)(char const*);
+    std::string subject;
+    std::size_t n; // table rows
+    TwinStats (*run)(char const*, std::size_t, std::size_t);
 };
+constexpr std::size_t kCaseCells = 512;
+inline std::uint64_t total_cases(std::vector<Entry> const& es)
+{
+    std::uint64_t t = 0;
+    for (auto const& e : es) { t += (e.n + kCaseCells - 1) / kCaseCells; }
+    return t;
+}
+inline void run_case_index(std::vector<Entry> const& es, std::uint64_t idx)
+{
+    for (auto const& e : es) {
+        std::uint64_t const c = (e.n + kCaseCells - 1) / kCaseCells;
+        if (idx < c) {
+            e.run(e.subject.c_str(), (std::size_t)idx * kCaseCells, (std::size_t)(idx + 1) * kCaseCells);
+            return;
+        }
+        idx -= c;
+    }
+}
+template <typename F, auto const& Tab, typename Cls, std::size_t CH>
+inline Entry make_entry(std::string subject)
+{
+    return Entry{std::move(subject), Tab.size(), &run_twin<F, Tab, Cls, CH>};
+}
 
 } // namespace c13
